@@ -24,21 +24,21 @@ def export_items():
     return _ITEMS[0]
 
 
-def _stage(dot, items):
+def _stage(dot, items, lookahead=0):
     import qvimport
     qvimport.install('guard')
     import quantity  # noqa: F401  (pristine core only)
     from adapters.units import UnitsAdapter
     g = graphreplay.load_dot(dot)
-    res = graphreplay.replay(g, lambda: UnitsAdapter(items))
+    res = graphreplay.replay(g, lambda: UnitsAdapter(items), lookahead=lookahead)
     devs = []
     for d in res['deviations']:
-        labs = graphreplay.path_labels(g, res, d['src'], d['ei'])
+        labs = graphreplay.path_labels(g, res, d['src'], d['ei'], d.get('path'))
         devs.append(dict(dev=d['dev'], path=labs))
-    crashes = [graphreplay.path_labels(g, res, c['src'], c['ei']) for c in res['crashes']]
+    crashes = [graphreplay.path_labels(g, res, c['src'], c['ei'], c.get('path')) for c in res['crashes']]
     return dict(edges=res['edges'], nodes=res['nodes'], nedges=g.nedges, deviations=devs,
                 crashes=crashes, harness=res['harness'], tasks=res['tasks'], wall=res['wall'],
-                divs=qvimport.drain_div_events(),
+                divs=qvimport.drain_div_events(), lookahead_steps=res.get('lookahead_steps', 0),
                 sample=[graphreplay.path_labels(g, res, s, 0) for s in list(g.out)[5:8] if g.out[s]])
 
 
@@ -48,7 +48,7 @@ def short_label(lab):
     return '%s(%s)' % (m.group(1), m.group(2)) if m else lab[:60]
 
 
-def run_menu(ctx, name, menu, depth, view=False):
+def run_menu(ctx, name, menu, depth, view=False, lookahead=2):
     """Model-check Units with `menu` to `depth`, then execute every transition."""
     items = export_items()
     ids = {i['id'] for i in items}
@@ -68,12 +68,15 @@ def run_menu(ctx, name, menu, depth, view=False):
     if not ok:
         return
     ctx.log('Units[%s]: %d states; executing every transition against the library' % (name, r.distinct))
-    res = forkpool.run_stage(_stage, dot, items)
+    res = forkpool.run_stage(_stage, dot, items, lookahead)
     os.unlink(dot)
     ctx.log('Units[%s]: %d edges executed (%d in graph), %d deviations, %.1fs' % (
         name, res['edges'], res['nedges'], len(res['deviations']), res['wall']))
     ctx.traces += res['tasks']
-    ctx.evaluations += res['edges']
+    ctx.evaluations += res['edges'] + res.get('lookahead_steps', 0)
+    if res.get('lookahead_steps'):
+        ctx.notes.append('Units[%s]: %d additional steps executed below non-tree edges (lookahead %d)' % (
+            name, res['lookahead_steps'], lookahead))
     for k in range(res['edges']):
         pass
     ctx.nontrivial.update('%s:%d' % (name, k) for k in range(res['edges']))
